@@ -233,6 +233,26 @@ class Run:
             raise Inconclusive("model-level check failed in %s: %s\n%s" % (module, r["violated"], trace))
         return r
 
+    def apalache(self, module, inv, length=0, timeout=300, label=None):
+        """Symbolic check of a lemma with Apalache (bounded by `length`); failure of the tool is inconclusive, never a violation."""
+        label = label or ("apalache:" + module)
+        d = os.path.join(self.scratch, "apa-%s" % module)
+        os.makedirs(d, exist_ok=True)
+        shutil.copy(os.path.join(SPEC, module + ".tla"), d)
+        t = time.time()
+        try:
+            p = subprocess.run(["apalache-mc", "check", "--inv=" + inv, "--length=%d" % length, "--out-dir=" + os.path.join(d, "out"), module + ".tla"],
+                               cwd=d, stdout=subprocess.PIPE, stderr=subprocess.STDOUT, text=True, timeout=timeout)
+        except subprocess.TimeoutExpired:
+            raise Inconclusive("Apalache timed out on " + module)
+        ok = "EXITCODE: OK" in p.stdout
+        self.stages.append(dict(stage=label, engine="apalache", ok=ok, wall_s=round(time.time() - t, 1)))
+        log("[apa] %-28s %s  %.1fs" % (label, "no error" if ok else "FAILED", time.time() - t))
+        if not ok:
+            raise Inconclusive("Apalache did not establish %s of %s:\n%s" % (inv, module, p.stdout[-1500:]))
+        self.extra.setdefault("apalache_lemmas", []).append("%s!%s" % (module, inv))
+        return True
+
     # ---------------------------------------------------------------- harness
     def vh_start(self, args, race=False):
         exe = build_harness(race)
